@@ -53,12 +53,16 @@ def run_demo(r, mdir, workdir, tag):
     if not os.path.exists(demo):
         return None, "no demo.c"
     exe = os.path.join(workdir, "demo_" + tag)
-    b = build(r, demo, exe, san=True, extra=demo_extra_flags(demo))
+    # a demo whose own build command (header comment) has no -fsanitize is meant to run plain
+    # (multi-GiB inputs): honour that
+    head = open(demo, errors="replace").read(6000)
+    san = ("-fsanitize" in head) or ("gcc" not in head)
+    b = build(r, demo, exe, san=san, extra=demo_extra_flags(demo))
     if b.returncode != 0:
         return None, "demo does not build: " + b.stderr[-400:]
     env = dict(os.environ, ASAN_OPTIONS="detect_leaks=1", UBSAN_OPTIONS="halt_on_error=1")
     try:
-        p = subprocess.run([exe], capture_output=True, text=True, errors="replace", timeout=600, cwd=workdir, env=env)
+        p = subprocess.run([exe], capture_output=True, text=True, errors="replace", timeout=900, cwd=workdir, env=env)
         return p.returncode, (p.stdout + p.stderr)[-300:]
     except subprocess.TimeoutExpired:
         return 124, "timeout"
